@@ -128,6 +128,7 @@ def nd_cases(run, rng, n, max_dim):
             method = None
             if mode == "dask":
                 arr = da.from_array(vals, chunks=tuple(G.random_composition(rng, s, 3) for s in shape))
+                method = rng.choice([None, None, "map-reduce", "cohorts"])
             elif mode == "dask-oneblock":
                 # one block along every label axis (blockwise applies, and is what the automatic choice takes)
                 arr = da.from_array(vals, chunks=tuple(G.random_composition(rng, s, 3) if i < nd - ld else (s,) for i, s in enumerate(shape)))
@@ -141,7 +142,7 @@ def nd_cases(run, rng, n, max_dim):
                 if mode == "eager":
                     eager_ok = True
             except (ValueError, NotImplementedError) as e:
-                if mode != "eager" and eager_ok and not (method == "blockwise" and k < ld):
+                if mode != "eager" and eager_ok and not (method in ("blockwise", "cohorts") and k < ld):
                     # the same request succeeds in memory: a chunked refusal is a difference (C02), not a refusal class
                     run.violation({"property": "C08", "kind": "chunked run raises where the in-memory run succeeds",
                                    "func": func, "mode": mode, "method": method, "shape": shape, "label_shape": list(lshape), "axis": list(axes),
